@@ -91,6 +91,16 @@ pub const ROUTES: &[(&str, &str)] = &[
     ("f:(sort_by_values (put {} \"a\" .xs))", "all"),
     ("f:(as_array .xs)", "all"),
     ("f:(map .xs (as_number .))", "all"),
+    // the same functions applied to every integer on its own (a scalar fast path is another path)
+    ("f:(map .xs (stringify .))", "all"),
+    ("f:(map .xs (parse (stringify .)))", "all"),
+    ("f:(map .xs (default .nosuch .))", "all"),
+    ("f:(map .xs (? true . 0))", "all"),
+    ("f:(map .xs (| . .))", "all"),
+    ("f:(map .xs (set \"v\" . :v))", "all"),
+    ("f:(map .xs (first (push [] .)))", "all"),
+    ("f:(map .xs (get (put {} \"k\" .) \"k\"))", "all"),
+    ("f:(join (map .xs (stringify .)) \" \")", "all"),
 ];
 
 fn digit_runs(b: &[u8]) -> Vec<String> {
@@ -512,7 +522,7 @@ impl Check for C19Nas {
 }
 
 pub fn run_all(ctx: &mut Ctx) {
-    ctx.rule = "(integers) 1..7 integers of [-2^63, 2^64) (boundaries, 2^53+-k, 2^k+-k, 10^19 neighbourhood, random 64-bit) x one of 49 non-arithmetic routes (15 pipeline routes: plain in 3 styles, select, filter on equality with the same literal, sort asc/desc, unique, group-by, merge, split-by, text, csv, skip/take; 34 function routes such as get take sub push values entries sort map first last reverese stringify parse default if pipe set define fold zip put ...): the digit strings found in stdout must be exactly the input's (as an ordered list, or as a multiset/set where the route reorders or deduplicates). (nas) operands of up to 60 digits, scale <= 40, exponent <= +-100, each operation run with three different spellings of every operand (leading/trailing zeros, zeros moved between mantissa and exponent, e/E, an explicit + sign on the number or the exponent, a bare fraction such as .5, negative zero): the result string parsed as a decimal must equal exact big-integer arithmetic for + - * abs normalise, the six comparisons must agree with the exact order, and normalise must give the same string for all spellings. non-trivial = an integer of >= 16 digits / an operand of >= 20 digits or operands of different scales".into();
+    ctx.rule = "(integers) 1..7 integers of [-2^63, 2^64) (boundaries, 2^53+-k, 2^k+-k, 10^19 neighbourhood, random 64-bit) x one of 58 non-arithmetic routes (15 pipeline routes: plain in 3 styles, select, filter on equality with the same literal, sort asc/desc, unique, group-by, merge, split-by, text, csv, skip/take; 43 function routes (on the list of all integers and on every integer on its own) such as get take sub push values entries sort map first last reverese stringify parse default if pipe set define fold zip put ...): the digit strings found in stdout must be exactly the input's (as an ordered list, or as a multiset/set where the route reorders or deduplicates). (nas) operands of up to 60 digits, scale <= 40, exponent <= +-100, each operation run with three different spellings of every operand (leading/trailing zeros, zeros moved between mantissa and exponent, e/E, an explicit + sign on the number or the exponent, a bare fraction such as .5, negative zero): the result string parsed as a decimal must equal exact big-integer arithmetic for + - * abs normalise, the six comparisons must agree with the exact order, and normalise must give the same string for all spellings. non-trivial = an integer of >= 16 digits / an operand of >= 20 digits or operands of different scales".into();
     ctx.assumptions = vec!["only digit runs are compared on the integer routes (inputs contain no other digits)".into(), "exact arithmetic by num-bigint in the harness".into()];
     C19Ints.run(ctx);
     C19Nas.run(ctx);
